@@ -491,6 +491,19 @@ def build_cases(reg, types, rng, per_type, depth):
 OMIT = ("<omitted>",)
 
 
+def loosen(t):
+    """the same type expression with every non-null below the top dropped"""
+    def strip_all(u):
+        if u[0] == "nonNull":
+            return strip_all(u[1])
+        if u[0] == "list":
+            return L(strip_all(u[1]))
+        return u
+    if t[0] == "nonNull":
+        return NN(strip_all(t[1]))
+    return strip_all(t)
+
+
 def make_group(reg, si, a, t, j, lit0, j0):
     xn = a["name"]
     g = {"spec": si, "ty": t, "j": j, "j0": j0, "arg": a, "cases": {}}
@@ -514,6 +527,11 @@ def make_group(reg, si, a, t, j, lit0, j0):
     if t[0] == "nonNull" and a["default"] is not None:
         # `$v: T` at a `T! = default` position is allowed by validation (location default)
         g["cases"]["var-nullable-locdefault"] = dict(base, vardefs=[("v", nullable(t), None)], args=[(xn, ("var", "v"))], variables=[("v", j)])
+    # a variable of a LOOSER type (inner non-nulls dropped): the validator must refuse the usage; if it does not, the
+    # resolver can receive None inside a list of non-null items (caught by the Conforms oracle)
+    lo = loosen(t)
+    if lo != t:
+        g["cases"]["var-looser-type"] = dict(base, vardefs=[("v", lo, None)], args=[(xn, ("var", "v"))], variables=[("v", j)])
     # a variable nested inside a list / object literal
     u = nullable(t)
     if u[0] == "list":
